@@ -325,6 +325,15 @@ inductive Line where
   | comment : Line
   | entry : Nat → List Nat → Line
   | bad : Line
+deriving DecidableEq, Repr
+
+def Line.isBad : Line → Bool
+  | .bad => true
+  | _ => false
+
+def Line.entry? : Line → Option (Nat × List Nat)
+  | .entry i js => some (i, js)
+  | _ => none
 
 def parseLine (l : List Char) : Line :=
   match splitBlank l with
@@ -343,8 +352,8 @@ def fileLines (txt : List Char) : List (List Char) :=
 /-- `NeighborList.load`: first pass counts the entry lines (`natoms`), second pass fills row `i`. -/
 def parse (txt : List Char) : Option Rows :=
   let ls := (fileLines txt).map parseLine
-  if ls.any (fun l => match l with | .bad => true | _ => false) then none else
-  let es := ls.filterMap (fun l => match l with | .entry i js => some (i, js) | _ => none)
+  if ls.any Line.isBad then none else
+  let es := ls.filterMap Line.entry?
   let n := es.length
   es.foldlM (fun rows (e : Nat × List Nat) => if e.1 < n then some (rows.set e.1 e.2) else none)
     (List.replicate n [])
